@@ -101,6 +101,7 @@ def layout_part(chk: Check):
 
 def run(chk: Check, drv: Driver):
     layout_part(chk)
+    operator_part(chk, drv)
     chk.cov["rule"] = (
         "sampled problems (curated + random, incl. right-nested sums/products) x formats x inputs with general finite doubles "
         "(0.1, 1e16, -1e16, 1e-7, 1e300, +-0.0, ...) x back ends {gcc via cffi, LLVM MCJIT, Lean IR machine}; "
@@ -374,3 +375,149 @@ def printer_part(chk: Check, drv: Driver, prepared):
 
 def replay(chk: Check, drv: Driver, path: str):
     run(chk, drv)
+
+
+def _f10_shaped(e) -> bool:
+    """the C printer drops the parentheses of `x + (y ± z)` and `x * (y * z)` (finding F10)"""
+    import dataclasses
+
+    from tensora.ir import ast as ir
+
+    if isinstance(e, ir.Add) and isinstance(e.right, (ir.Add, ir.Subtract)):
+        return True
+    if isinstance(e, ir.Multiply) and isinstance(e.right, ir.Multiply):
+        return True
+    if dataclasses.is_dataclass(e):
+        return any(_f10_shaped(getattr(e, f.name)) for f in dataclasses.fields(e) if isinstance(getattr(e, f.name), ir.Expression))
+    return False
+
+
+def operator_part(chk: Check, drv: Driver):
+    """operator-level differential of the three executions of the IR: typed expression trees over scalar
+    variables (every arithmetic / comparison / boolean / min / max / BooleanToInteger constructor, mixed int-float
+    operands, depth <= 2) are compiled as `return e` functions through ir_to_llvm + MCJIT and through ir_to_c + gcc,
+    and evaluated on the Lean IR machine; wherever the machine evaluates without error (no int32 overflow, finite
+    floats) the three results must be bit-identical. The kernels exercise several constructors in one place
+    only (Max: capacity growth; Or: nowhere); this part exercises all of them on all operand types."""
+    import ctypes
+    import struct
+    import tempfile
+
+    from cffi import FFI
+    from tensora.codegen import ir_to_c
+    from tensora.compile._compile_cffi import taco_define_header
+    from tensora.compile._compile_llvm import compile_module
+    from tensora.ir import ast as ir
+    from tensora.ir import types
+
+    from ..export import fbits
+    from .c07 import grow
+
+    rng = chk.rng
+    quick = chk.tier == "quick"
+    ints = [ir.IntegerLiteral(v) for v in (0, 1, 2, -3)] + [ir.Variable("i"), ir.Variable("j")]
+    floats = [ir.FloatLiteral(v) for v in (0.0, 1.0, 2.5, 0.1, -0.0)] + [ir.Variable("x"), ir.Variable("y")]
+    bools = [ir.BooleanLiteral(True), ir.BooleanLiteral(False), ir.LessThan(ir.Variable("i"), ir.Variable("j")),
+             ir.Equal(ir.Variable("x"), ir.Variable("y")), ir.GreaterThanOrEqual(ir.Variable("i"), ir.Variable("x"))]
+    i1, f1, b1 = grow(ints, floats, bools)
+    i2, f2, b2 = grow(ints + i1, floats + f1, bools + b1, rng, 500 if quick else 5000)
+    pool = [(e, "i") for e in i1 + i2] + [(e, "f") for e in f1 + f2] + [(ir.BooleanToInteger(e), "i") for e in b1 + b2]
+    if quick and len(pool) > 1500:
+        keep = [(e, t) for e, t in pool if any(isinstance(e, c) or isinstance(getattr(e, "expression", None), c) for c in (ir.Max, ir.Min, ir.Or, ir.And))]
+        pool = keep[:500] + rng.sample(pool, 1000)
+    params = [ir.Declaration(ir.Variable("i"), types.integer), ir.Declaration(ir.Variable("j"), types.integer),
+              ir.Declaration(ir.Variable("x"), types.float), ir.Declaration(ir.Variable("y"), types.float)]
+    # operand-type combinations the LLVM lowering does not implement (the generator never emits them: mixed
+    # int/float min/max, comparisons of booleans, ...) are left out and counted
+    import llvmlite.binding as llvmb
+    from tensora.codegen import ir_to_llvm
+
+    accepted = []
+    for e, t in pool:
+        try:
+            one = ir_to_llvm(ir.Module([ir.FunctionDefinition(ir.Variable("f"), params, types.integer if t == "i" else types.float, ir.Block([ir.Return(e)]))]))
+            llvmb.parse_assembly(str(one)).verify()
+            accepted.append((e, t))
+        except Exception as ex:  # noqa: BLE001
+            chk.count("operator_shapes_not_implemented_by_llvm_lowering_" + type(ex).__name__)
+    pool = accepted
+    funcs = [ir.FunctionDefinition(ir.Variable(f"f{k}"), params, types.integer if t == "i" else types.float, ir.Block([ir.Return(e)]))
+             for k, (e, t) in enumerate(pool)]
+    module = ir.Module(funcs)
+    # LLVM
+    try:
+        engine = compile_module(module)
+    except Exception as e:  # noqa: BLE001
+        chk.violation(f"the LLVM back end cannot compile a module of typed expression functions: {type(e).__name__}: {str(e)[:300]}", {"functions": len(funcs)})
+        return
+    # C
+    ffi = FFI()
+    sigs = "\n".join(f"{'int32_t' if t == 'i' else 'double'} f{k}(int32_t i, int32_t j, double x, double y);" for k, (_, t) in enumerate(pool))
+    ffi.cdef(sigs)
+    src = ir_to_c(module).replace("int32_t restrict", "int32_t").replace("double restrict", "double")
+    ffi.set_source("verif_ops", "#include <stdint.h>\n" + taco_define_header + src, extra_compile_args=["-O1", "-w"])
+    with tempfile.TemporaryDirectory(prefix="verif_c06_ops_") as td:
+        try:
+            lib = ffi.dlopen(ffi.compile(tmpdir=td))
+        except Exception as e:  # noqa: BLE001
+            chk.violation(f"the C printed for typed expression functions does not compile: {str(e)[:300]}", {"functions": len(funcs)})
+            return
+        I = [0, 1, -1, 2, 3, 7, -5, 46341, 2147483647, -2147483648]
+        Fl = [0.0, -0.0, 1.0, 0.5, 2.5, -3.0, 0.1, 3.0, 1e300, 1e-300, 100000.0, 1.0 / 3.0]
+        envs_ = [(rng.choice(I), rng.choice(I), rng.choice(Fl), rng.choice(Fl)) for _ in range(5)] + [(2, 2, 0.1, 0.1), (0, -1, -0.0, 0.0)]
+        reqs = []
+        for e, _ in pool:
+            for (i, j, x, y) in envs_:
+                env = [Atom("env"), [Atom("var"), "i", [Atom("Integer")], i], [Atom("var"), "j", [Atom("Integer")], j],
+                       [Atom("var"), "x", [Atom("Float")], [Atom("f"), fbits(x)]], [Atom("var"), "y", [Atom("Float")], [Atom("f"), fbits(y)]]]
+                reqs.append(f"RUNENV 5 {sx(export(ir.Return(e)))} {sx(env)}")
+        replies = drv.batch(reqs)
+        n = bad = skipped = 0
+        for k, (e, t) in enumerate(pool):
+            addr = engine.get_function_address(f"f{k}")
+            cf = ctypes.CFUNCTYPE(ctypes.c_int32 if t == "i" else ctypes.c_double, ctypes.c_int32, ctypes.c_int32, ctypes.c_double, ctypes.c_double)(addr)
+            for m, (i, j, x, y) in enumerate(envs_):
+                rep = replies[k * len(envs_) + m]
+                if not (isinstance(rep, list) and rep and rep[0] == "ok"):
+                    skipped += 1  # int32 overflow / non-finite / type error on the machine: outside the comparison
+                    continue
+                ret = rep[1][1]
+                if t == "i":
+                    if isinstance(ret, list):
+                        skipped += 1
+                        continue
+                    want = int(ret)
+                    got_l, got_c = int(cf(i, j, x, y)), int(getattr(lib, f"f{k}")(i, j, x, y))
+                    same = want == got_l == got_c
+                else:
+                    if not (isinstance(ret, list) and ret[0] == "f"):
+                        skipped += 1
+                        continue
+                    want = int(ret[1])
+                    got_l = struct.unpack("<Q", struct.pack("<d", cf(i, j, x, y)))[0]
+                    got_c = struct.unpack("<Q", struct.pack("<d", getattr(lib, f"f{k}")(i, j, x, y)))[0]
+                    same = want == got_l == got_c
+                    if not same and want == got_l and {want, got_c} == {0, 1 << 63}:
+                        # +0.0 vs -0.0 from the C compiler only: gcc 12 folds `0.0 - (double)j` to `-(double)j` even at -O0
+                        # (clang does not); an artefact of the external tool on a shape the generator never emits
+                        chk.count("operator_level_c_compiler_sign_of_zero")
+                        same = True
+                n += 1
+                if not same and want == got_l and _f10_shaped(e):
+                    f = chk.match_known(lambda f: f.get("signature", {}).get("predicate") == "right-nested-same-precedence")
+                    if f:
+                        chk.known(f["id"], f["what"])
+                        chk.count("operator_level_f10_reassociated_by_c")
+                        continue
+                if not same:
+                    bad += 1
+                    chk.violation("the three executions of an IR expression disagree (IR machine / LLVM back end / C back end)",
+                                  {"tree": sx(export(e))[:500], "i": i, "j": j, "x": x, "y": y}, expected={"ir_machine": want}, got={"llvm": got_l, "c": got_c})
+                    if bad > 5:
+                        break
+            if bad > 5:
+                break
+        chk.count("operator_level_evaluations", n)
+        chk.count("operator_level_skipped_machine_error", skipped)
+        chk.corr("operator-level(ir-machine,llvm,c)", n, bad)
+        del lib
